@@ -440,6 +440,9 @@ def absEv : Event → Option LLabel
 def Typed (v : Val) : Prop := ∃ x, dec L v = some x
 def IsObj (v : Val) : Prop := ∃ l a, v = .ptr l ∧ L.addr l = some a
 
+theorem dec_int0 : dec L (.int 0) = some 0 := by simp [dec]
+theorem dec_ptr (l : Loc) : dec L (.ptr l) = L.addr l := rfl
+
 theorem dec_eq_zero {v : Val} (h : dec L v = some 0) : v = .int 0 := by
   unfold dec at h
   split at h
@@ -497,6 +500,83 @@ theorem enqBody_exec (fuel : Nat) (env : Env) (inp : List Val) (nl : Loc) (mbv :
     · by_cases hmb : mbv = 0 <;>
         simp [enqBody, Gen.Src.«_cds_lfq_enqueue_rcu», block, exec, eval, evalArgs, execPrim, asLoc, bind, Except.bind,
         h1, h2, hcfg, Env.setVar, setDst, Val.truthy, evalBin, boolV, mbEv, hmb, hnv] <;> exact ⟨_, _, _, _, ⟨rfl, rfl, rfl, rfl⟩, hnv, rfl, rfl, ⟨rfl, rfl⟩, rfl, rfl, rfl⟩
+
+/-- the local automaton follows the labels of `evs` from `ls`; where it ends, by how the run ended -/
+def EnqPost (c : Cfg) (ls : LState) (out : Out) (evs : List Event) : Prop :=
+  ∃ ls', lrun c ls (evs.filterMap (absEv L)) = some ls' ∧ ls'.inDeq = ls.inDeq ∧ ls'.node = ls.node ∧ ls'.hd = ls.hd ∧
+    ((out.ctl = .ret none ∧ ls'.pc = (if ls.inDeq then .dLdN2 else .idle)) ∨
+     (out.ctl = .blocked ∧ (ls'.pc = .eLd ∨ ls'.pc = .eCas ∨ ls'.pc = .eAdv ∨ ls'.pc = .eHelp)) ∨
+     (out.ctl = .fuel ∧ ls'.pc = .eLd))
+
+theorem filterMap_mbEv (mbv : Int) (rest : List Event) :
+    (mbEv mbv ++ rest).filterMap (absEv L) = rest.filterMap (absEv L) := by
+  unfold mbEv; split <;> simp [absEv, List.filterMap_cons]
+
+theorem enq_loop (c : Cfg) (fuel : Nat) (nl : Loc) (n : Nat) (mbv : Int) (hn : L.addr nl = some n) (iters : Nat) :
+    ∀ (env : Env) (inp : List Val) (acc : List Event) (ls : LState),
+      env.vars "q" = some (.ptr L.q) → env.vars "node" = some (.ptr nl) →
+      env.priv (.glob "CONFIG_RCU_EMIT_LEGACY_MB") = some (.int mbv) → EnqInp L inp → ls.pc = .eLd → ls.node = n →
+      ∃ out evs, iterate (fun e i => exec fuel enqBody e i) iters env inp acc = .ok out ∧ out.events = acc ++ evs ∧
+        EnqPost L c ls out evs := by
+  induction iters with
+  | zero =>
+    intro env inp acc ls h1 h2 hcfg hwt hpc hnode
+    exact ⟨_, [], rfl, by simp, ls, rfl, rfl, rfl, rfl, Or.inr (Or.inr ⟨rfl, hpc⟩)⟩
+  | succ iters ih =>
+    intro env inp acc ls h1 h2 hcfg hwt hpc hnode
+    obtain ⟨o, ho, hpriv, hcase⟩ := enqBody_exec L fuel env inp nl mbv h1 h2 hcfg hwt
+    simp only [iterate, ho, bind, Except.bind]
+    have hne : ∀ l : Loc, (Loc.field l "next" = .field L.q "tail") = False := by intro l; simp
+    rcases hcase with ⟨rfl, hev, hctl⟩ | ⟨tl, rfl, hev, hctl⟩ | ⟨tl, nv, rfl, hctl, hev⟩ |
+      ⟨tl, a, rest, rfl, hctl, hinp, hev⟩ | ⟨tl, nv, a, rest, rfl, hnv, hctl, hinp, h1', h2', hev⟩
+    · simp only [hctl]
+      exact ⟨_, o.events, rfl, rfl, ls, by simp [hev, lrun], rfl, rfl, rfl, Or.inr (Or.inl ⟨rfl, Or.inl hpc⟩)⟩
+    · simp only [hctl]
+      obtain ⟨tl', ta, e, hta⟩ := hwt; cases e
+      refine ⟨_, o.events, rfl, rfl, { ls with tl := ta, pc := .eCas }, ?_, rfl, rfl, rfl,
+        Or.inr (Or.inl ⟨rfl, Or.inr (Or.inl rfl)⟩)⟩
+      rw [hev, List.filterMap_cons]
+      have := filterMap_mbEv L mbv []
+      simp only [List.append_nil] at this
+      simp [this, absEv, dec_ptr, hta, lrun, lstep, hpc]
+    · simp only [hctl]
+      obtain ⟨⟨tl', ta, e, hta⟩, ⟨nx, hnx⟩⟩ := hwt; cases e
+      by_cases h0 : nx = 0
+      · refine ⟨_, o.events, rfl, rfl, { ls with tl := ta, pc := .eAdv }, ?_, rfl, rfl, rfl,
+          Or.inr (Or.inl ⟨rfl, Or.inr (Or.inr (Or.inl rfl))⟩)⟩
+        rw [hev, List.filterMap_cons, filterMap_mbEv]
+        simp [absEv, dec_ptr, dec_int0, hta, hn, lrun, lstep, hpc, hne, hnx, h0, hnode, List.filterMap_cons]
+      · refine ⟨_, o.events, rfl, rfl, { ls with tl := ta, nx := nx, pc := .eHelp }, ?_, rfl, rfl, rfl,
+          Or.inr (Or.inl ⟨rfl, Or.inr (Or.inr (Or.inr rfl))⟩)⟩
+        rw [hev, List.filterMap_cons, filterMap_mbEv]
+        simp [absEv, dec_ptr, dec_int0, hta, hn, lrun, lstep, hpc, hne, hnx, h0, hnode, List.filterMap_cons]
+    · simp only [hctl]
+      obtain ⟨⟨tl', ta, e, hta⟩, -, ⟨ax, hax⟩, -⟩ := hwt; cases e
+      refine ⟨_, o.events, rfl, rfl, { ls with tl := ta, pc := if ls.inDeq then .dLdN2 else .idle }, ?_, rfl, rfl, rfl,
+        Or.inl ⟨rfl, rfl⟩⟩
+      rw [hev, List.filterMap_cons, filterMap_mbEv]
+      simp [absEv, dec_ptr, dec_int0, hta, hn, lrun, lstep, hpc, hne, hax, hnode, List.filterMap_cons]
+    · simp only [hctl]
+      obtain ⟨⟨tl', ta, e, hta⟩, ⟨nx, hnx⟩, ⟨ax, hax⟩, hrest⟩ := hwt; cases e
+      have h0 : nx ≠ 0 := fun e => hnv (dec_eq_zero L (e ▸ hnx))
+      obtain ⟨out, evs', hit, hevs, ls', hrun, hd1, hd2, hd3, hfin⟩ :=
+        ih o.env o.inp (acc ++ o.events) { ls with tl := ta, nx := nx, pc := .eLd } h1' h2' (hpriv ▸ hcfg)
+          (hinp ▸ hrest) rfl hnode
+      refine ⟨out, o.events ++ evs', hit, by simp [hevs], ls', ?_, hd1, hd2, hd3, hfin⟩
+      rw [hev, List.cons_append, List.filterMap_cons, List.append_assoc, filterMap_mbEv]
+      simp [absEv, dec_ptr, dec_int0, hta, hn, lrun, lstep, hpc, hne, hnx, hax, h0, hnode, List.filterMap_cons]
+      rw [← hnode]; exact hrun
+
+/-- `_cds_lfq_enqueue_rcu(q, node)` from L2's `eLd` (after `enqCall n`, or `enqueue_dummy` inside dequeue: `inDeq`) -/
+theorem enqueue_refines_env (c : Cfg) (fuel : Nat) (env : Env) (inp : List Val) (nl : Loc) (n : Nat) (mbv : Int)
+    (ls : LState) (h1 : env.vars "q" = some (.ptr L.q)) (h2 : env.vars "node" = some (.ptr nl))
+    (hn : L.addr nl = some n) (hcfg : env.priv (.glob "CONFIG_RCU_EMIT_LEGACY_MB") = some (.int mbv))
+    (hwt : EnqInp L inp) (hpc : ls.pc = .eLd) (hnode : ls.node = n) :
+    ∃ out, exec fuel Gen.Src.«_cds_lfq_enqueue_rcu» env inp = .ok out ∧ EnqPost L c ls out out.events := by
+  rw [show Gen.Src.«_cds_lfq_enqueue_rcu» = .loop enqBody from rfl]
+  simp only [exec]
+  obtain ⟨out, evs, hit, hevs, hpost⟩ := enq_loop L c fuel nl n mbv hn fuel env inp [] ls h1 h2 hcfg hwt hpc hnode
+  exact ⟨out, hit, by simpa [hevs] using hpost⟩
 
 end LfqR
 end UrcuVerif.Src.Queue
